@@ -6,7 +6,9 @@ import (
 	"fmt"
 	"io"
 	"net"
+	"log"
 	"net/http"
+	"net/http/httptest"
 	"sort"
 	"strconv"
 	"strings"
@@ -772,4 +774,78 @@ func runC16(c *mon.Ctx) {
 	c16WellKnown(c, st)
 	c16Policy(c, ds)
 	c16WellKnownUnderPolicy(c, st, ds)
+	c16ClientSequences(c)
+}
+
+// c16ClientSequences sends requests for several server names that share a host through ONE client that resolves and
+// remembers resolutions (as NewFederationClient's does): every request must arrive at the target its own name
+// resolves to, with that name as Host header, whatever the client resolved before.
+func c16ClientSequences(c *mon.Ctx) {
+	r := c.Rand("client-sequences")
+	type hit struct{ server, host string }
+	var mu sync.Mutex
+	var hits []hit
+	var names []string
+	var servers []*httptest.Server
+	for i := 0; i < 3; i++ {
+		label := fmt.Sprintf("server%d", i)
+		srv := httptest.NewUnstartedServer(http.HandlerFunc(func(w http.ResponseWriter, q *http.Request) {
+			mu.Lock()
+			hits = append(hits, hit{label, q.Host})
+			mu.Unlock()
+			w.Header().Set("Content-Type", "application/json")
+			_, _ = w.Write([]byte(`{"server":{"name":"` + label + `","version":"1"}}`))
+		}))
+		srv.Config.ErrorLog = log.New(io.Discard, "", 0)
+		srv.StartTLS()
+		servers = append(servers, srv)
+		names = append(names, srv.Listener.Addr().String()) // 127.0.0.1:<port>: an IP literal with an explicit port
+	}
+	defer func() {
+		for _, s := range servers {
+			s.Close()
+		}
+	}()
+	n := c.Scale(6, 60)
+	for k := 0; k < n; k++ {
+		sr := r.Fork("seq")
+		var seq []int
+		for i, m := 0, sr.Range(3, 8); i < m; i++ {
+			seq = append(seq, sr.Intn(len(names)))
+		}
+		c.Case("client:sequence-of-names-sharing-a-host", map[string]any{"sequence": seq}, func() {
+			c.Nontrivial(fmt.Sprintf("client-seq|%v", seq))
+			cl := fclient.NewClient(fclient.WithSkipVerify(true), fclient.WithWellKnownSRVLookups(true), fclient.WithTimeout(5*time.Second))
+			for step, i := range seq {
+				mu.Lock()
+				hits = nil
+				mu.Unlock()
+				ctx, cancel := context.WithTimeout(context.Background(), 5*time.Second)
+				v, err := cl.GetVersion(ctx, spec.ServerName(names[i]))
+				cancel()
+				mu.Lock()
+				got := append([]hit{}, hits...)
+				mu.Unlock()
+				c.Count("client_sequence_requests")
+				want := fmt.Sprintf("server%d", i)
+				if err != nil || len(got) != 1 {
+					c.Failf("client-sequence:request-not-delivered", "step %d of %v: the request for %s gave err=%v and reached %v", step, seq, names[i], err, got)
+					return
+				}
+				if got[0].server != want || v.Server.Name != want {
+					c.Failf("client-sequence:wrong-target", "step %d of %v: the request for %s was answered by %s (listening on %s), not by the server at that address", step, seq, names[i], got[0].server, names[seqIndex(got[0].server)])
+					return
+				}
+				if got[0].host != names[i] {
+					c.Failf("client-sequence:wrong-host-header", "step %d of %v: the request for %s carried Host %q", step, seq, names[i], got[0].host)
+					return
+				}
+			}
+		})
+	}
+}
+
+func seqIndex(label string) int {
+	i, _ := strconv.Atoi(strings.TrimPrefix(label, "server"))
+	return i
 }
